@@ -164,6 +164,8 @@ pub struct Stats {
 	pub nontrivial_bulk: u64,
 	pub classes: BTreeMap<String, u64>,
 	pub counters: BTreeMap<String, u64>,
+	/// named sets of small integers (e.g. lengths hit); reported by size
+	pub sets: BTreeMap<String, std::collections::BTreeSet<u64>>,
 	pub samples: Vec<Value>,
 	pub max_ratio: f64,
 	pub excluded_known: u64,
@@ -181,6 +183,11 @@ impl Stats {
 	pub fn count(&mut self, name: &str, n: u64) {
 		if !self.frozen {
 			*self.counters.entry(name.to_string()).or_insert(0) += n;
+		}
+	}
+	pub fn set_add(&mut self, name: &str, v: u64) {
+		if !self.frozen {
+			self.sets.entry(name.to_string()).or_default().insert(v);
 		}
 	}
 	pub fn nontrivial(&mut self, fingerprint: u64) {
@@ -222,6 +229,9 @@ impl Stats {
 		}
 		for (k, v) in o.counters {
 			*self.counters.entry(k).or_insert(0) += v;
+		}
+		for (k, v) in o.sets {
+			self.sets.entry(format!("{prefix}/{k}")).or_default().extend(v);
 		}
 		for s in o.samples {
 			if self.samples.len() < 24 {
@@ -676,6 +686,7 @@ pub fn run_property(def: PropertyDef, tier: Tier, seed: u64, only: Option<&str>)
 		"samples": total.samples,
 		"classes": total.classes,
 		"counters": total.counters,
+		"distinct_values_hit": total.sets.iter().map(|(k, v)| (k.clone(), v.len())).collect::<BTreeMap<String, usize>>(),
 		"excluded_known": total.excluded_known,
 		"max_allowance_ratio": total.max_ratio,
 		"per_check": per_check,
